@@ -743,7 +743,13 @@ class SwitchEndian(Unary):
             opcode = Opcode.LE
         elif endian in ">!":
             opcode = Opcode.BE
-        self.ebpf.append(opcode, dst, 0, 0, calcsize(size) * 8)
+        bits = calcsize(size) * 8
+        self.ebpf.append(opcode, dst, 0, 0, bits)
+        width = 64 if long else 32
+        if size.islower() and bits < width:
+            # the swap zero-extends, so signed values need extending again
+            regs = self.ebpf.sr if long else self.ebpf.sw
+            regs[dst] = (regs[dst] << (width - bits)) >> (width - bits)
 
 
 class Sum(Binary):
